@@ -194,14 +194,12 @@ Proof.
   unfold parse_qha, print_qha. cbn [app].
   rewrite find_header_print by (try assumption; lia). cbn [obind]. cbv beta iota.
   rewrite Hnv, Hnq, !Nat2Z.id.
-  set (W := [] :: s_weight :: map print_weight (weights d)).
-  assert (Hv : read_volumes (length (volumes d)) (length (weights d)) (Z.to_nat (np d))
-                 ([] :: flat_map print_volume (volumes d) ++ W)
-               = Some (map round_volume (volumes d), W)
-                 \/ (volumes d = [] /\
-                     read_volumes (length (volumes d)) (length (weights d)) (Z.to_nat (np d))
-                       ([] :: flat_map print_volume (volumes d) ++ W)
-                     = Some ([], [] :: W))).
+  match goal with |- obind (read_volumes ?n ?q ?p ?L) _ = _ =>
+    match L with _ :: _ ++ ?W =>
+    assert (Hv : read_volumes n q p L = Some (map round_volume (volumes d), W)
+                 \/ (volumes d = [] /\ read_volumes n q p L = Some ([], [] :: W)))
+    end
+  end.
   { destruct (volumes d) as [|v vs] eqn:Ev.
     - right. split; reflexivity.
     - left. rewrite <- Ev in *.
@@ -211,10 +209,9 @@ Proof.
       change (S (length vs)) with (length (v :: vs)). rewrite <- Ev.
       apply read_volumes_print. exact Hvs. }
   destruct Hv as [Hv | [Ev Hv]]; rewrite Hv; cbn [obind]; cbv beta iota.
-  - unfold W. rewrite after_weight_print. rewrite read_weights_print by exact Hws. cbn [obind].
+  - rewrite after_weight_print. rewrite read_weights_print by exact Hws. cbn [obind].
     unfold round_qha. rewrite <- Hnv, <- Hnq. reflexivity.
-  - unfold W.
-    assert (Ea : forall ws, after_weight ([] :: [] :: s_weight :: ws) = after_weight ([] :: s_weight :: ws)) by reflexivity.
+  - assert (Ea : forall ws, after_weight ([] :: [] :: s_weight :: ws) = after_weight ([] :: s_weight :: ws)) by reflexivity.
     rewrite Ea, after_weight_print. rewrite read_weights_print by exact Hws. cbn [obind].
     unfold round_qha. rewrite Ev. cbn [map length]. rewrite <- Hnq. rewrite Ev in Hnv. cbn [length] in Hnv. rewrite <- Hnv.
     reflexivity.
@@ -284,15 +281,16 @@ Lemma print_qha_nl_free comment d :
   Forall nl_free (print_qha comment d).
 Proof.
   intros Hc H1 H2 H3 H4 H5. unfold print_qha.
-  repeat apply Forall_app; repeat split.
-  - repeat constructor; try exact Hc; try reflexivity.
+  apply Forall_app; split; [|apply Forall_app; split; [|apply Forall_app; split]].
+  - constructor; [exact Hc|]. constructor; [reflexivity|]. constructor; [reflexivity|].
+    constructor; [|constructor; [reflexivity | constructor]].
     unfold print_counts. apply nl_free_join. repeat constructor; apply nl_free_fmt_d; assumption.
   - apply Forall_flat_map. intros v. unfold print_volume. constructor.
     + repeat (apply nl_free_app; [first [reflexivity | apply nl_free_fmt_f]|]). apply nl_free_fmt_f.
     + apply Forall_flat_map. intros q. unfold print_qpoint. constructor.
       * apply nl_free_join, Forall_map_all, nl_free_fmt_f.
       * apply Forall_map_all, nl_free_fmt_f.
-  - repeat constructor; reflexivity.
+  - constructor; [reflexivity|]. constructor; [reflexivity | constructor].
   - apply Forall_map_all. intros w. unfold print_weight. apply nl_free_join, Forall_map_all, nl_free_fmt_f.
 Qed.
 
